@@ -8,7 +8,7 @@ use serde_json::json;
 
 use crate::{
     ev::Report,
-    junos::{esc, render_running, RunningStmt, JCMD},
+    junos::{esc, render_running, RunningStmt, BASE_NS, JCMD, XNM},
 };
 
 #[derive(Debug, Clone)]
@@ -221,6 +221,53 @@ fn check(report: &mut Report, gens: &[&Gen], distinct: &mut BTreeSet<String>) {
     }
 }
 
+/// Where the `jcmd` namespace is declared, which prefix it is bound to, and `jcmd:active` on the elements
+/// around and inside a statement: hand-built documents, each with the selection it must produce.
+fn placement_cases() -> Vec<(&'static str, String, Vec<(&'static str, &'static str)>, &'static str)> {
+    let doc = |po_attrs: &str, stmts: &str| format!("<rpc-reply message-id=\"1\" xmlns=\"{BASE_NS}\"><data><configuration xmlns=\"{XNM}\"><policy-options{po_attrs}>{stmts}</policy-options></configuration></data></rpc-reply>");
+    let j = format!(" xmlns:jcmd=\"{JCMD}\"");
+    let managed_a = "<policy-statement jcmd:comment=\"/* bgpfu-fltr: AS-FOO */\"><name>a</name><then><reject/></then></policy-statement>";
+    let a = vec![("a", "AS-FOO")];
+    vec![
+        ("declared-on-policy-options", doc(&j, managed_a), a.clone(), "plain"),
+        ("declared-on-policy-options; an unannotated sibling first", doc(&j, &format!("<policy-statement><name>other</name><then><accept/></then></policy-statement>{managed_a}")), a.clone(), "plain"),
+        ("declared-on-policy-options; an inactive sibling that declares it again first", doc(&j, &format!("<policy-statement{j} jcmd:active=\"false\"><name>off</name></policy-statement>{managed_a}")), a.clone(), "plain"),
+        ("a skipped sibling binds the prefix to another namespace", doc(&j, &format!("<policy-statement xmlns:jcmd=\"urn:other\" jcmd:comment=\"x\"><name>off</name></policy-statement>{managed_a}")), a.clone(), "scope-leak"),
+        ("a skipped sibling binds the prefix to another namespace (after)", doc(&j, &format!("{managed_a}<policy-statement xmlns:jcmd=\"urn:other\" jcmd:comment=\"x\"><name>off</name></policy-statement>")), a.clone(), "plain"),
+        ("the namespace is bound to another prefix", doc("", &format!("<policy-statement xmlns:zz=\"{JCMD}\" zz:comment=\"/* bgpfu-fltr: AS-FOO */\"><name>a</name><then><reject/></then></policy-statement>")), a.clone(), "plain"),
+        ("the jcmd prefix is bound to another namespace on the statement", doc("", "<policy-statement xmlns:jcmd=\"urn:other\" jcmd:comment=\"/* bgpfu-fltr: AS-FOO */\"><name>a</name><then><reject/></then></policy-statement>"), vec![], "plain"),
+        ("an unprefixed comment attribute", doc("", "<policy-statement comment=\"/* bgpfu-fltr: AS-FOO */\"><name>a</name><then><reject/></then></policy-statement>"), vec![], "plain"),
+        ("inactive attribute in another namespace", doc(&j, &format!("<policy-statement xmlns:o=\"urn:other\" o:active=\"false\" jcmd:comment=\"/* bgpfu-fltr: AS-FOO */\"><name>a</name><then><reject/></then></policy-statement>")), a.clone(), "plain"),
+        ("the policy-options stanza is inactive", doc(&format!("{j} jcmd:active=\"false\""), managed_a), vec![], "inactive-ancestor"),
+        ("the default action of the statement is inactive", doc(&j, "<policy-statement jcmd:comment=\"/* bgpfu-fltr: AS-FOO */\"><name>a</name><then jcmd:active=\"false\"><reject/></then></policy-statement>"), vec![], "inactive-then"),
+        ("the reject of the statement is inactive", doc(&j, "<policy-statement jcmd:comment=\"/* bgpfu-fltr: AS-FOO */\"><name>a</name><then><reject jcmd:active=\"false\"/></then></policy-statement>"), vec![], "inactive-then"),
+    ]
+}
+
+fn placement(report: &mut Report, distinct: &mut BTreeSet<String>) -> u64 {
+    let cases = placement_cases();
+    let n = cases.len() as u64;
+    for (desc, xml, want, class) in cases {
+        _ = distinct.insert(xml.clone());
+        let expected: BTreeSet<(String, String)> = want.iter().map(|(n, e)| ((*n).to_string(), canon(e))).collect();
+        let case = json!({"running": xml, "case": desc});
+        match parse_candidates(&xml) {
+            Ok(got) => {
+                let got: BTreeSet<(String, String)> = got.into_iter().collect();
+                if got != expected {
+                    let dir = if got.len() > expected.len() { "selected-but-must-not" } else { "not-selected-but-must" };
+                    report.violation(&format!("C16:placement:{class}:{dir}"), &format!("{desc}: selected {got:?}, expected {expected:?}"), case);
+                }
+            }
+            // refusing to read a configuration whose managed statement is not a plain default reject is the
+            // reader's fail-safe answer everywhere else too
+            Err(_) if class == "inactive-then" => report.observe("reader aborted the read for a statement whose default action is inactive (fail-safe)"),
+            Err(err) => report.violation(&format!("C16:placement:{class}:reader-error"), &format!("{desc}: the candidate reader failed: {err}"), case),
+        }
+    }
+    n
+}
+
 pub fn run(report: &mut Report) {
     let full = report.tier.thorough();
     let gens = statements(full);
@@ -252,6 +299,9 @@ pub fn run(report: &mut Report) {
         }
     }
     evaluations += pairs + 1;
+    let placed = placement(report, &mut distinct);
+    evaluations += placed;
+    report.set("namespace_and_ancestor_placement_cases", placed);
     let selected = gens.iter().filter(|g| g.selected.is_some()).count() as u64;
     report.set("evaluations", evaluations);
     report.set("distinct_nontrivial", distinct.len() as u64);
